@@ -412,7 +412,7 @@ theorem handoff_end_to_end (cfg : Forkable.Config) (hnew : cfg.matches .new = tr
         some ⟨(runHistory cfg (runHistory cfg (Forkable.init cfg) h1).1 h2).1.db.libRef.id, P'⟩ := by
   have hI0 := Props.C01.init_inv cfg r hr hroot
   have hJ0 := Props.C01.init_inv2 cfg r hroot U hr1 hr2
-  have hH0 : Props.C01.HeadU U (Forkable.init cfg) := by
+  have hH0 : Forkable.HeadU U (Forkable.init cfg) := by
     intro l hl
     have : (Forkable.init cfg).lastSent = none := by unfold Forkable.init; rw [hroot]
     rw [this] at hl; cases hl
@@ -443,6 +443,54 @@ theorem handoff_end_to_end (cfg : Forkable.Config) (hnew : cfg.matches .new = tr
     (fun e he => Props.C01.head_num_of_invariants U hU F _ hJ hH h hlast e he)
     n hn hex r0 fb hfile hjoin h2 hin2 hL2
   exact ⟨burst, P', hb, hrun⟩
+
+/-- **End to end for the hub's own configuration** (`forkable.New(h, HoldBlocksUntilLIB(), WithKeptFinalBlocks(n))`: no
+    LIB to start with, blocks held until one is discovered): the same statement, with the hub's forkable started empty
+    and fed any history `h1` of one consistent block tree. That the hub serves the request (`headSegment … = some …`)
+    implies that it has discovered its LIB; the invariants then hold by `C01.history_all_invariants_discovery`. -/
+theorem handoff_end_to_end_hub (cfg : Forkable.Config) (hroot : cfg.root = none) (hhold : cfg.hold = true)
+    (hnew : cfg.matches .new = true) (hundo : cfg.matches .undo = true) (hirr : cfg.matches .irreversible = true)
+    (U : Id → Option Blk) (hU : UOK U)
+    (h1 : List Blk) (hin1 : ∀ b ∈ h1, U b.id = some b) (hL1 : Props.C01.LibHistOK cfg (Forkable.init cfg) h1)
+    (h : Blk) (seg : List Entry)
+    (hs : headSegment (runHistory cfg (Forkable.init cfg) h1).1 = some (h, seg))
+    (n : Nat) (hn : n ≤ (runHistory cfg (Forkable.init cfg) h1).1.db.libRef.num) (hex : ∃ e ∈ seg, e.blk.num = n)
+    (r0 : Id) (fb : List Blk) (hfile : linkedBlks r0 fb)
+    (hjoin : ∀ e, (seg.dropWhile (fun e => e.blk.num != n)).head? = some e → e.blk.parent = topOf r0 (fb.map (·.id)))
+    (h2 : List Blk) (hin2 : ∀ b ∈ h2, U b.id = some b)
+    (hL2 : Props.C01.LibHistOK cfg (runHistory cfg (Forkable.init cfg) h1).1 h2) :
+    ∃ burst P', blocksFromNum (runHistory cfg (Forkable.init cfg) h1).1 n = some burst ∧
+      (⟨r0, []⟩ : CS).run (fb.map (Resolver.fileEv .newIrreversible) ++ burst ++
+          (runHistory cfg (runHistory cfg (Forkable.init cfg) h1).1 h2).2) =
+        some ⟨(runHistory cfg (runHistory cfg (Forkable.init cfg) h1).1 h2).1.db.libRef.id, P'⟩ := by
+  have hlast : (runHistory cfg (Forkable.init cfg) h1).1.lastSent = some h := by
+    unfold headSegment at hs
+    split at hs
+    · cases hs
+    · cases hl : (runHistory cfg (Forkable.init cfg) h1).1.lastSent with
+      | none => rw [hl] at hs; cases hs
+      | some l =>
+        rw [hl] at hs
+        simp only at hs
+        cases hc : (runHistory cfg (Forkable.init cfg) h1).1.db.completeSegment l.ref with
+        | mk o rr =>
+          rw [hc] at hs
+          cases o with
+          | none => cases hs
+          | some sg =>
+            cases rr with
+            | false => cases hs
+            | true =>
+              simp only [Option.some.injEq, Prod.mk.injEq] at hs
+              rw [hs.1]
+  rcases Props.C01.history_all_invariants_discovery cfg hhold hnew hundo hirr U hU h1 (Forkable.init cfg)
+      (preInv_init U cfg hroot) hin1 hL1 with hPre | ⟨P, F, hI, hJ, hH⟩
+  · -- no LIB discovered: the hub has no head, it cannot have served the request
+    rw [hPre.noLast] at hlast; cases hlast
+  · obtain ⟨burst, P', hb, _, hrun, _⟩ := handoff_by_number_is_seamless cfg hnew hundo hirr U hU F _ P hI hJ h seg hs
+      (fun e he => Props.C01.head_num_of_invariants U hU F _ hJ hH h hlast e he)
+      n hn hex r0 fb hfile hjoin h2 hin2 hL2
+    exact ⟨burst, P', hb, hrun⟩
 
 end Seamless
 
